@@ -72,6 +72,11 @@ func (g *Gateway) subscriptionHandler(w http.ResponseWriter, r *http.Request) {
 		defer func() {
 			recover()
 		}()
+		// whatever happens to the close frame: close all running handlers
+		// and the connection
+		defer subDict.CleanAll()
+		defer conn.Close()
+
 		// gracefully close connection
 		body := ws.NewCloseFrameBody(ws.StatusNormalClosure, "")
 		frame := ws.NewCloseFrame(body)
@@ -81,12 +86,6 @@ func (g *Gateway) subscriptionHandler(w http.ResponseWriter, r *http.Request) {
 		if _, err := conn.Write(body); err != nil {
 			return
 		}
-
-		// close conn
-		conn.Close()
-
-		// close all running handlers
-		subDict.CleanAll()
 	}()
 
 	for {
